@@ -304,6 +304,21 @@ def pred_too_many(case: dict, mode: str) -> bool:
     return mode == "graph" and len(case["comps"]) > len(case["shape"])
 
 
+def needs_transpose(case: dict) -> bool:
+    """C11-N3: exactly one 1-D index, the advanced indices (ints, rank-0 tensors, the 1-D index) are not
+    adjacent, and a kept axis precedes the 1-D index: NumPy moves the broadcast axis to the front; both
+    front ends leave it in place (sequential Gathers never transpose)."""
+    comps = case["comps"]
+    if len(comps) > len(case["shape"]):
+        return False
+    adv = [i for i, c in enumerate(comps) if c[0] in "ITVGM"]
+    vec = [i for i, c in enumerate(comps) if c[0] == "V"]
+    if len(vec) != 1 or not adv:
+        return False
+    adjacent = len(adv) == adv[-1] - adv[0] + 1
+    return (not adjacent) and any(c[0] not in "ITVGM" for c in comps[: vec[0]])
+
+
 def classify(case: dict, mode: str) -> str | None:
     if pred_too_many(case, mode):
         return "C11-N1"
@@ -517,6 +532,12 @@ def check_cases(run: core.Run, drv: core.Driver, cases, stats: Counter, do_graph
         fn, err, metas, modname = compile_cases(cases)
     for i, c in enumerate(cases):
         m_graph, m_eager, m_numpy = outs[3 * i], outs[3 * i + 1], outs[3 * i + 2]
+        moved = m_numpy.startswith("front=")  # NumPy puts the broadcast axis first (model: numpyIndexT)
+        if moved:
+            m_numpy = m_numpy.split(" ", 1)[1]
+            stats["numpy_front_axis_cases"] += 1
+        if moved != needs_transpose(c) and not m_numpy.startswith("ERR"):
+            problems.append((c, "numpy", "tie", f"model frontOf says moved={moved}, harness predicate {needs_transpose(c)}"))
         np_res = numpy_result(c)
         stats["cases"] += 1
         # the model's NumPy must be NumPy (validates the spec side of the theorems)
@@ -525,8 +546,7 @@ def check_cases(run: core.Run, drv: core.Driver, cases, stats: Counter, do_graph
                 problems.append((c, "numpy", "tie", f"model numpyIndex={m_numpy} real numpy={np_res}"))
         else:
             stats["numpy_unmodelled"] += 1
-            nvec = sum(1 for ck in c["comps"] if ck.startswith("V:"))
-            stats["unmodelled_two_or_more_1d_indices" if nvec > 1 else "unmodelled_broadcast_axis_moves_to_front"] += 1
+            stats["unmodelled_two_or_more_1d_indices"] += 1
         if any(ck[0] in "TVGM" for ck in c["comps"]) and sum(1 for ck in c["comps"] if comp_kind(ck) != "skip") > 1:
             stats["mixed_tensor_index_cases"] += 1
         for mode in (["graph"] if do_graph else []) + (["eager"] if do_eager else []):
@@ -567,9 +587,8 @@ def check_cases(run: core.Run, drv: core.Driver, cases, stats: Counter, do_graph
             # and a front end never returns a tensor for an expression NumPy rejects
             if m_numpy == "ERR:unmodelled":
                 # two or more 1-D indices (NumPy zips/broadcasts them, or raises when they do not
-                # broadcast) or a 1-D index whose broadcast axis NumPy moves to the front: outside the
-                # documented forms ("i is a tensor holding one integer") and outside the model;
-                # counted, not judged
+                # broadcast): outside the documented forms ("i is a tensor holding one integer") and
+                # outside the model; counted, not judged
                 stats[f"{mode}_outside_documented_forms"] += 1
             elif np_res == "ERR":
                 # NumPy raises: the front end must refuse or fail too — a tensor here is a tensor that
@@ -579,7 +598,10 @@ def check_cases(run: core.Run, drv: core.Driver, cases, stats: Counter, do_graph
                     stats[f"{mode}_tensor_where_numpy_raises"] += 1
                     problems.append((c, mode, "property", f"{mode} returned {ires} ; numpy raises"))
             elif not ires.startswith("ERR") and ires != np_res:
-                problems.append((c, mode, "property", f"{mode} returned {ires} ; numpy {np_res}"))
+                # C11-N3 is only the *order* of the axes: the implementation must still return exactly what
+                # the model predicts (NumPy's per-axis maps, axes in place); anything else is not that finding
+                kind_ = "property_n3" if (moved and norm_err(mres) == ires) else "property"
+                problems.append((c, mode, kind_, f"{mode} returned {ires} ; numpy {np_res}"))
             for ck in c["comps"]:
                 stats["comp_" + ck[0]] += 1
     if modname:
@@ -592,9 +614,10 @@ def main(run: core.Run) -> None:
         "A-op: ONNX Slice/Squeeze/Gather follow the operator specification (transcribed in OV.Model.Index); "
         "onnxruntime CPU is the runtime the results are observed on",
         "NumPy basic indexing = CPython PySlice_AdjustIndices (transcribed); validated against real NumPy on every case",
-        "tensor-valued indices: rank-0 and at most one 1-D index per expression are judged; NumPy's axis transposition "
-        "for separated advanced indices (X[0, :, I]) and multi-vector (zip) indexing are outside the model: such cases "
-        "are generated (few), tied to the model, counted in the evidence (`unmodelled_*`) and not judged against NumPy",
+        "tensor-valued indices: rank-0 and at most one 1-D index per expression are judged, NumPy's move of the "
+        "broadcast axis to the front (X[0, :, I]) included (model: numpyIndexT; finding C11-N3); multi-vector (zip) "
+        "indexing is outside the model: such cases are generated (few), tied to the model, counted in the evidence "
+        "(`unmodelled_*`) and not judged against NumPy",
     ]
     audit = run.prove(PROP_MODULES)
     drv = core.Driver("C11")
@@ -705,7 +728,7 @@ def main(run: core.Run) -> None:
         if kind == "tie":
             tie_broken.append((c, mode, detail))
         else:
-            fid = classify(c, mode)
+            fid = "C11-N3" if kind == "property_n3" else classify(c, mode)
             if fid and fid in findings:
                 known_counts[fid] += 1
                 if known_counts[fid] == 1:
@@ -714,6 +737,7 @@ def main(run: core.Run) -> None:
                 prop_failures.append((c, mode, detail))
     stats["known_D22"] = known_counts["D22"]
     stats["known_C11-N1"] = known_counts["C11-N1"]
+    stats["known_C11-N3"] = known_counts["C11-N3"]
 
     if family_failures:
         case_, mode_, detail_ = family_failures[0]
@@ -761,10 +785,8 @@ def main(run: core.Run) -> None:
         + "; all kind patterns {rank-0 tensor, int, slice, ':', "
         "1-D tensor (at most one)}^rank, rank 3 and 4, on a 2x3x4(x5) tensor are enumerated "
         "completely (values sampled); other higher-rank cases are seeded random",
-        unmodelled_not_judged={
-            "broadcast_axis_moves_to_front": stats["unmodelled_broadcast_axis_moves_to_front"],
-            "two_or_more_1d_indices": stats["unmodelled_two_or_more_1d_indices"],
-        },
+        unmodelled_not_judged={"two_or_more_1d_indices": stats["unmodelled_two_or_more_1d_indices"]},
+        numpy_front_axis_cases=stats["numpy_front_axis_cases"],
         former_d7_family={
             "graph_cases": stats["graph_axis_shift_shape"],
             "graph_returning_a_tensor_and_judged": stats["graph_axis_shift_shape_judged_tensor"],
